@@ -46,7 +46,13 @@ ASSUMPTIONS = [
     "back as those numbers; every other column must come back with identical cell text",
     "the eval()-based mixed-type inference of cast_str_to_array is exercised, not modelled; strings that would "
     "call functions / build huge values under eval are not generated (the harness must survive)",
-    "index_name handling, formatting (to_string/markdown/latex/html) and column_templates are outside the property",
+    "tables are generated with and without index_name (unique labels; shown first) for every op; callbacks are python "
+    "callables and string expressions; columns= is spelled as str / list / tuple in any order",
+    "summed / normalized / to_categorical / head+tail (through the repr policy) / row selection by index label are "
+    "exercised against the row oracle only (no Lean model, no theorem); row masks are only used on tables without "
+    "index_name (DictArrayTemplate does not accept them) and int index labels are not used for row slicing (ambiguous)",
+    "to_csv / to_tsv / to_string(format=csv|tsv) text is parsed with csv.reader and the Lean reader model; float columns "
+    "are left out there (formatted to `digits`); markdown/latex/html/rst output and column_templates are outside the property",
 ]
 
 FORMATS = ["tsv", "csv", "tsv.gz", "csv.gz", "json", "pickle"]
@@ -1666,6 +1672,7 @@ def correspondence(ctx):
         "bool/object columns); csv: exhaustive fields/texts over a small alphabet incl. delimiter, quote, CR, LF + random; "
         "non-trivial = distinct cases whose result has >= 1 row or raises (ops), texts with quotes/delimiters (csv)"
     )
+    replay_fixed_witnesses(ctx, out)
     corr_csv(ctx, out)
     corr_table_text(ctx, out)
     rng = ctx.subrng("corr-ops")
@@ -1694,9 +1701,9 @@ def correspondence(ctx):
             if s_real is None and s_model is not None:
                 bump(out, "model_stale_where_code_conforms_to_spec", case["op"])
                 continue
-            if s_real is not None and s_model is None and len(s_real) == 4:
-                # the model does what the row oracle says and the implementation does not: that is a violation of
-                # the property by the real code (reported as such, with this input as replay), not a modelling gap
+            if s_real is not None and len(s_real) == 4:
+                # the implementation does not do what the row oracle says: that is a violation of the property by the
+                # real code (reported as such, with this input as replay), whatever the model says
                 corr_spec[s_real[3]] += 1
                 bump(out, "corr_found_spec_failure", s_real[3])
                 if corr_spec[s_real[3]] <= 2:
@@ -1749,13 +1756,7 @@ def spec_check(ctx, budget):
         if per_sig[sig] <= 3:  # keep a few of each class so that one class cannot crowd out another
             add_failure(out, "spec", what, inp, exp, got, confirmed=True, sig=sig)
 
-    # regressions of repaired defects first (so that the witness itself becomes the replay)
-    for fid, w in fixed_witnesses():
-        out["evaluations"] += 1
-        f = _check_input(ctx, w)
-        bump(out, "fixed_witness_replayed", fid)
-        if f:
-            add_failure(out, "spec", f"regression of repaired defect {fid}: {f[0]}", w, f[1], f[2], confirmed=True, sig="regression:" + f[3])
+    replay_fixed_witnesses(ctx, out)
     cases = exhaustive_sort_cases()
     cases += [gen_case(rng) for _ in range(3000 * budget)]
     for c in cases:
@@ -1881,6 +1882,19 @@ def fixed_witnesses():
     if not fp.exists():
         return []
     return [(k["id"], k["witness"]) for k in json.loads(fp.read_text()).get("findings", []) if k.get("status") == "fixed" and "witness" in k]
+
+
+def replay_fixed_witnesses(ctx, out):
+    """regressions of repaired defects come first, so that the recorded witness itself becomes the replay"""
+    if getattr(ctx, "_c20_fixed_done", False):
+        return
+    ctx._c20_fixed_done = True
+    for fid, w in fixed_witnesses():
+        out["evaluations"] += 1
+        f = _check_input(ctx, w)
+        bump(out, "fixed_witness_replayed", fid)
+        if f:
+            add_failure(out, "spec", f"regression of repaired defect {fid}: {f[0]}", w, f[1], f[2], confirmed=True, sig="regression:" + f[3])
 
 
 def match_finding(f, k):
